@@ -1,33 +1,53 @@
 CFG = dict(
     prop="C04", level="proof", harness="c04",
     props_files=["theories/Props/C04.v"], corr_file="theories/Corr/C04.v", corr_module="Corr.C04",
-    groups={"tree": False, "patches": False},
-    show_fn={"tree": "model", "patches": "model_patches"},
+    groups={"tree": False, "patches": False, "span": False},
+    show_fn={"tree": "model", "patches": "model_patches", "span": "model_span"},
     shard=60,
     design_ref="DESIGN.md 6.4, notes/C04.md",
     technique="Coq proof about a Gallina model of iter_patches / generate_source_patches / slice_source_file_using_patches / "
-              "build_up_fixed_source_string / fix_string (for all patch lists and all trees) + correspondence of the model "
-              "with the real patch list and fixed text on the final tree of every recorded fix run + direct observation",
+              "build_up_fixed_source_string / fix_string (for all patch lists and all trees) and of "
+              "raw_slices_spanning_source_slice (conflict side) + correspondence of the model "
+              "with the real patch list and fixed text on the final tree of every recorded fix run and with the real "
+              "spanning function + direct observation + a soundness monitor of has_template_conflicts on synthetic fixes",
     level_text="C04_fix_string_spec (fix_string = splice of the normalised patches, for every patch list), "
                "C04_normalise_id, C04_untemplated (for every final tree whose root spans an untemplated file: fixed text = raw of "
                "the tree), C04_unchanged and C04_templated_keeps_partial (source ranges no patch touches survive) are closed Coq "
-               "theorems. The model is tied to the code on every run: the real final tree (fix-loop hook) and TemplatedFile are "
+               "theorems; C04_conflict_slices_complete / C04_conflict_verdict: over raw slices tiling the source every raw slice "
+               "a source range overlaps is returned by raw_slices_spanning_source_slice, so a deletion/replacement reaching "
+               "into a placeholder is a template conflict. The model is tied to the code on every run: the real final tree (fix-loop hook) and TemplatedFile are "
                "fed to the Gallina iter_patches/fix_string and must reproduce the real patch list and the real fix_string(); "
-               "arbitrary patch lists with source-only slices are replayed against the real LintedFile::fix_string.",
+               "arbitrary patch lists with source-only slices are replayed against the real LintedFile::fix_string; the real "
+               "raw_slices_spanning_source_slice (hook) is replayed against the Gallina spanning on the source ranges of every "
+               "segment, ranges around every slice border and random ranges.",
     level_note="The templated half of the property (re-rendering the fixed source gives the tree's raw, placeholders in order) is "
                "decided by proof only up to C04_templated_keeps_partial (byte survival of untouched ranges under a monitored "
                "sortedness premise); the re-rendering equality itself is observed directly on every templated run, not proved. "
+               "fix_slices / templated_slice_to_source_slice (the window has_template_conflicts inspects) are not modelled: the "
+               "filter's soundness (every fix that would delete/replace placeholder source or insert inside a placeholder's "
+               "rendering is reported as a conflict) is a blocking monitor over synthetic fixes anchored at every segment x edit type. "
                "Rule bodies, apply_fixes and the templater are not modelled (the final tree and TemplatedFile are recorded data).",
     rule="fix runs (lint_parsed with fix=true) over: every dialect fixture file x rotating rule selections, layout/case-perturbed "
-         "fixture files, rule yaml snippets, and fixture files whose literals are replaced by placeholders (10 styles, values "
-         "shorter/equal/longer than the placeholder); per run the final tree (positions, raws) + TemplatedFile are replayed "
-         "through the Gallina iter_patches + fix_string (group tree); group patches = random patch lists (sorted, overlapping, "
-         "duplicate, with source-only slices) against the real fix_string. non-trivial = at least one patch; distinct = "
-         "distinct (args, expected) pairs. direct = fixed text vs tree raw (untemplated), placeholders and re-render (templated)",
+         "fixture files, rule yaml snippets, fixture files whose literals are replaced by placeholders (10 styles, values "
+         "shorter/equal/longer than the placeholder, placeholder as its own token), the same with the wide generator (13 styles incl. "
+         "apache_camel and two param_regex; identifiers replaced whole or in part = placeholder glued to an identifier; values lexing "
+         "into several tokens, padded, with a line break; file cut so that it ends in a placeholder without newline; values through "
+         "the ini text or the configuration object) and synthetic statements (52 skeletons; placeholders as column / table / alias / "
+         "value / keyword / clause / statement, glued, adjacent, in comments and quoted literals, at the start and the very end of the "
+         "file; single-token, multi-token, multi-line, blank and empty values); per run the final tree (positions, raws) + "
+         "TemplatedFile are replayed through the Gallina iter_patches + fix_string (group tree); group patches = random patch lists "
+         "(sorted, overlapping, duplicate, with source-only slices) against the real fix_string; group span = "
+         "raw_slices_spanning_source_slice on segment ranges, slice borders and random ranges against the Gallina spanning. "
+         "non-trivial = at least one patch (span: a range spanning several raw slices); distinct = distinct (args, expected) pairs. "
+         "direct = fixed text vs tree raw (untemplated), placeholders and re-render (templated)",
     assumptions=["usize subtractions in iter_patches wrap (harness profile has overflow checks off); the monitor "
                  "'no usize underflow' reports inputs on which a build with overflow checks would panic instead",
                  "source fixes are always empty in this port (SegmentBuilder::node sets source_fixes: vec![]); monitored per tree",
                  "inputs on which lexing/parsing or a rule panics are skipped and counted (C03/C15), not reported under C04",
+                 "templated failures are keyed by class when the outcome shows one of the recorded findings (placeholder fused with its "
+                 "neighbour after a literal blank was removed; placeholder with an empty value swallowed; patches out of order after a "
+                 "rule moved code) - see known_findings.txt; everything else is keyed per input",
                  "tree correspondence cases are emitted for sources up to 2500 bytes; of the runs without any patch 1 in 4 is replayed in Coq (larger inputs are still observed directly)"],
-    trusted_extra=["verif hooks: core.rs verif_hook::FixEvent (final tree), TemplatedFileInner::verif_raw_sliced"],
+    trusted_extra=["verif hooks: core.rs verif_hook::FixEvent (final tree, applied fixes), TemplatedFileInner::verif_raw_sliced_idx, "
+                   "TemplatedFileInner::verif_raw_slices_spanning"],
 )
